@@ -1052,7 +1052,7 @@ func (s *pSite) waitedInPlace(call *ssa.Call) bool {
 }
 
 func (pc *pCtx) p4Mode(s *pSite) {
-	props := []string{"C01", "C02", "C13"} // without the lock, the callbacks of the sources (and the downstream state behind them) run concurrently
+	props := []string{"C01", "C02", "C05", "C13"} // without the lock, the callbacks of the sources (and the downstream state behind them) run concurrently
 	ctxs := s.emitContexts()
 	n := 0
 	var names []string
